@@ -253,10 +253,27 @@ func (p *pkgInfo) emitFacts(o *out) {
 			}
 			// the same critical section without defer: Lock() first, Unlock() as the very last
 			// statement, and no return / goto / other Unlock in between (every path leaves through it)
-			last := p.src(fd.Body.List[len(fd.Body.List)-1])
-			if a == recv+"."+muName+".Lock()" && last == recv+"."+muName+".Unlock()" && fd.Type.Results == nil {
+			// … the Unlock may be followed by one final `return` whose expressions do not touch the
+			// receiver at all (values copied to locals while the lock was held)
+			stmts := fd.Body.List
+			if ret, ok := stmts[len(stmts)-1].(*ast.ReturnStmt); ok && len(stmts) >= 3 {
+				touchesRecv := false
+				for _, r := range ret.Results {
+					ast.Inspect(r, func(n ast.Node) bool {
+						if id, ok := n.(*ast.Ident); ok && id.Name == recv {
+							touchesRecv = true
+						}
+						return !touchesRecv
+					})
+				}
+				if !touchesRecv {
+					stmts = stmts[:len(stmts)-1]
+				}
+			}
+			last := p.src(stmts[len(stmts)-1])
+			if a == recv+"."+muName+".Lock()" && last == recv+"."+muName+".Unlock()" && (fd.Type.Results == nil || len(stmts) < len(fd.Body.List)) {
 				clean := true
-				for _, st := range fd.Body.List[1 : len(fd.Body.List)-1] {
+				for _, st := range stmts[1 : len(stmts)-1] {
 					ast.Inspect(st, func(n ast.Node) bool {
 						switch v := n.(type) {
 						case *ast.ReturnStmt, *ast.FuncLit, *ast.GoStmt, *ast.DeferStmt:
